@@ -94,7 +94,7 @@ public:
 
         if (state_ == State::CLOSING && queue_.empty())
         {
-            state_ == State::CLOSED;
+            state_ = State::CLOSED;
         }
         
         full_.notify_one();
@@ -139,7 +139,7 @@ public:
 
         if (state_ == State::CLOSING && queue_.empty())
         {
-            state_ == State::CLOSED;
+            state_ = State::CLOSED;
         }
         
         full_.notify_one();
